@@ -23,6 +23,7 @@ EXPLANATION = (
     'Disjointness over all interleavings as such, the segment_index_of bijection (log2 is not constexpr) and iterator validity '
     'are NOT decided.')
 EXPLANATION += ' Added after the seeded-change rounds: ' + 'D7: wait loops on segment-table entries re-read the table pointer in every iteration (no snapshot from before the loop); D8: the exception cleanup of internal_loop_construct touches an element through the unchecked subscript only where its segment entry was seen allocated, and a block zero-fill count is 1 or derived from segment_size().'
+EXPLANATION += ' Added in the third session (round-3 seeds and the findings they led to): ' + 'D8 also: the growth path indexes a segment only after excluding the allocation-failure tag for that very value; D9: after a failed call nothing it was responsible for stays pending - the exception cleanup tags the missing segments of the abandoned range, every wait for the long table consults the allocation-failed flag.'
 ASSUMPTIONS = ['instantiations: concurrent_vector<int>, <string> (explicit instantiation + member templates used by the driver)']
 ND = ['disjointness/tiling of claimed ranges over all interleavings', 'segment_index_of bijection', 'iterator validity']
 
